@@ -870,6 +870,27 @@ fn values(thorough: bool) -> Vec<Val> {
         let info: Vec<u8> = (0..n).map(|i| (i as u8) ^ 0xA5).collect();
         out.push(Val::Key { v, flags: fl, ski: *ski, asn, info });
     } } } } }
+    // the length of the key info and the number of providers: every value of an initial range,
+    // then the neighbourhoods of the powers of two up to the maxima (quick stops at 65537 octets)
+    let mut key_lens: Vec<usize> = (0..=300).collect();
+    for k in [512usize, 1024, 2048, 4096, 65536] { key_lens.extend([k - 1, k, k + 1]) }
+    if thorough { for k in [8192usize, 16384, 32768, 1 << 17, 1 << 18, 1 << 20] { key_lens.extend([k - 1, k, k + 1]) } }
+    for n in key_lens {
+        out.push(Val::Key { v: 1 + (n % 2) as u8, flags: (n % 2 == 0) as u8, ski: seq, asn: 0x00AB_CDEF, info: (0..n).map(|i| (i as u8).wrapping_mul(31) ^ 0x5A).collect() });
+    }
+    let mut counts: Vec<usize> = (0..=80).collect();
+    for k in [128usize, 256, 512, 1024, 2048, 4096, 8192] { counts.extend([k - 1, k, k + 1]) }
+    counts.extend([16379, 16380]);
+    for n in counts {
+        out.push(Val::Aspa { v: 2, flags: (n % 2 == 0) as u8, customer: 0x00AB_CDEF, providers: (0..n as u32).map(|i| i.wrapping_mul(0x0101_0101) ^ 0x8000_0001).collect() });
+    }
+    // the lengths of the two fields of an error report
+    let mut elens: Vec<usize> = (0..=40).collect();
+    for k in [64usize, 128, 256, 512, 4096, 65536] { elens.extend([k - 1, k, k + 1]) }
+    for n in elens {
+        out.push(Val::Error { v: 1, code: 3, pdu: vec![], text: (0..n).map(|i| (i as u8) | 0x80).collect() });
+        out.push(Val::Error { v: 2, code: 3, pdu: (0..n).map(|i| i as u8).collect(), text: b"x".to_vec() });
+    }
     // ASPA
     for &v in &vers { for &fl in flags { for &customer in asns { for n in [0usize, 1, 2, 255, 256, 16380] {
         for base in if thorough { vec![0u32, 0xFFFF_0000] } else { vec![0xFFFF_0000u32] } {
@@ -1124,7 +1145,9 @@ fn closes(k: usize) -> [Vec<Ev>; 2] {
 //------------ client-level streams ------------------------------------------
 
 struct ClientSeed {
-    name: &'static str,
+    name: String,
+    /// A seed of the count sweep: fragmented into <= 2 chunks only, not part of the fault space.
+    sweep: bool,
     init_v: u8,
     state: Option<(u16, u32)>,
     /// The reply stream, as values.
@@ -1158,23 +1181,35 @@ fn client_seeds() -> Vec<ClientSeed> {
     for v in [0u8, 1, 2] {
         let full = items(v, [1, 1, 1, 1]);
         let mut reply = vec![Val::CacheResponse { v, session: S }]; reply.extend(full.clone()); reply.push(eod(v));
-        out.push(ClientSeed { name: ["reset.v0", "reset.v1", "reset.v2"][v as usize], init_v: v, state: None, reply: reply.clone(),
+        out.push(ClientSeed { name: format!("reset.v{v}"), sweep: false, init_v: v, state: None, reply: reply.clone(),
             expect: Some((true, seen(&full), timing(v), (S, N))) });
         let diff = items(v, [0, 1, 1, 0]);
         let mut dreply = vec![Val::CacheResponse { v, session: S }]; dreply.extend(diff.clone()); dreply.push(eod(v));
-        out.push(ClientSeed { name: ["serial.v0", "serial.v1", "serial.v2"][v as usize], init_v: v, state: Some((S, N.wrapping_sub(1))), reply: dreply,
+        out.push(ClientSeed { name: format!("serial.v{v}"), sweep: false, init_v: v, state: Some((S, N.wrapping_sub(1))), reply: dreply,
             expect: Some((false, seen(&diff), timing(v), (S, N))) });
         let mut rreply = vec![Val::CacheReset { v }]; rreply.extend(reply.clone());
-        out.push(ClientSeed { name: ["serial-reset.v0", "serial-reset.v1", "serial-reset.v2"][v as usize], init_v: v, state: Some((S, 5)), reply: rreply,
+        out.push(ClientSeed { name: format!("serial-reset.v{v}"), sweep: false, init_v: v, state: Some((S, 5)), reply: rreply,
             expect: Some((true, seen(&full), timing(v), (S, N))) });
     }
     // version negotiation: the server only speaks version 1
     let full1 = items(1, [1, 1, 1, 1]);
     let mut neg = vec![Val::Error { v: 1, code: 4, pdu: vec![2, 2, 0, 0, 0, 0, 0, 8], text: b"only version 1".to_vec() }, Val::CacheResponse { v: 1, session: S }];
     neg.extend(full1.clone()); neg.push(eod(1));
-    out.push(ClientSeed { name: "downgrade.v2-v1", init_v: 2, state: None, reply: neg, expect: Some((true, seen(&full1), timing(1), (S, N))) });
-    out.push(ClientSeed { name: "error-report", init_v: 1, state: None,
+    out.push(ClientSeed { name: "downgrade.v2-v1".into(), sweep: false, init_v: 2, state: None, reply: neg, expect: Some((true, seen(&full1), timing(1), (S, N))) });
+    out.push(ClientSeed { name: "error-report".into(), sweep: false, init_v: 1, state: None,
         reply: vec![Val::Error { v: 1, code: 2, pdu: vec![], text: b"no data".to_vec() }], expect: None });
+    // the number of payload PDUs in a reply: every count 0..=40 and the neighbourhoods of 64, 128, 256
+    // (reset at version 2 with n origins alternating IPv4 / IPv6, every fifth a router key, every seventh an ASPA)
+    for n in (0usize..=40).chain([63, 64, 65, 127, 128, 129, 255, 256, 257]) {
+        let its: Vec<Val> = (0..n).map(|i| match i {
+            i if i % 7 == 6 => Val::Aspa { v: 2, flags: 1, customer: 70000 + i as u32, providers: (0..(i % 5) as u32).map(|k| 80000 + k).collect() },
+            i if i % 5 == 4 => Val::Key { v: 2, flags: 1, ski: seq, asn: 65000 + i as u32, info: vec![i as u8; i % 40] },
+            i if i % 2 == 0 => Val::V4 { v: 2, flags: 1, plen: 24, mlen: 24, addr: 0x0A00_0000 | ((i as u32) << 8), asn: 64512 + i as u32 },
+            i => Val::V6 { v: 2, flags: 1, plen: 48, mlen: 64, addr: (0x2001_0db8u128 << 96) | ((i as u128) << 80), asn: 64512 + i as u32 },
+        }).collect();
+        let mut reply = vec![Val::CacheResponse { v: 2, session: S }]; reply.extend(its.clone()); reply.push(eod(2));
+        out.push(ClientSeed { name: format!("reset.v2.items{n}"), sweep: true, init_v: 2, state: None, reply, expect: Some((true, seen(&its), timing(2), (S, N))) });
+    }
     out
 }
 
@@ -1239,7 +1274,7 @@ fn judge_client_variants(acc: &mut Acc, seed: &ClientSeed, stream: &[u8], script
     let delivered: usize = script.iter().map(|e| if let Ev::Deliver(k) = e { *k } else { 0 }).sum();
     let mut ok = true;
     let mut runs = 1;
-    let mut level = |acc: &mut Acc, r: &ClientRun| run_level(acc, "client", &wit, r.pending_at_quiescence, &r.end, r.livelock, r.spin, true);
+    let level = |acc: &mut Acc, r: &ClientRun| run_level(acc, "client", &wit, r.pending_at_quiescence, &r.end, r.livelock, r.spin, true);
     if seed.init_v == 2 {
         let r = exec_client_mode(CMode { how: How::New, ..CMode::STEP }, 2, seed.state, stream, script); runs += 1;
         ok &= level(acc, &r);
@@ -1323,7 +1358,7 @@ fn main() {
 
     //--- (1) round trip of single PDUs ---------------------------------------
     let sp = ctx.space("roundtrip.pdu",
-        "every value of the boundary domains (all PDU types, versions 0-2, both actions) written by the library, length field compared with the octets written, read back through every reader that consumes the type, under every fragmentation into <= 3 chunks (every cut position for PDUs <= 64 octets; first 48 / last 8 / 1024-boundary positions for longer ones; quick: <= 2 chunks for PDUs > 64 octets); non-trivial = executions with at least one cut");
+        "every value of the boundary domains (all PDU types, versions 0-2, both actions) written by the library, length field compared with the octets written, read back through every reader that consumes the type, under every fragmentation into <= 3 chunks (every cut position for PDUs <= 64 octets; first 48 / last 8 / 1024-boundary positions for longer ones; quick: <= 2 chunks for PDUs > 64 octets and one piece above 70 000 octets, thorough: <= 2 chunks above 70 000 octets); key-info lengths every 0..=300, provider counts every 0..=80, error-report field lengths every 0..=40, then k-1,k,k+1 for the powers of two up to 65536 octets / 16380 providers (thorough: key info up to 2^20); non-trivial = executions with at least one cut");
     let vals = values(true);
     let max_cuts_long = ctx.tier.pick(1, 2);
     let accs: Vec<Acc> = vals.par_iter().map(|val| {
@@ -1338,7 +1373,7 @@ fn main() {
             acc.fail("C07.rt.length_field", || format!("pdu={} bytes={}", val.render(), show(&wire)),
                 format!("header says version {} type {} length {announced}; {} octets were written for version {} type {}", wire[0], wire[1], wire.len(), val.version(), val.ty().code()));
         }
-        let frs = fragmentations(wire.len(), if wire.len() <= 64 { 2 } else { max_cuts_long });
+        let frs = fragmentations(wire.len(), if wire.len() <= 64 { 2 } else if wire.len() <= 70_000 { max_cuts_long } else { max_cuts_long - 1 });
         for rd in readers_for(val.ty()) { for fr in &frs { judge_roundtrip(&mut acc, val, &wire, rd, fr) } }
         acc
     }).collect();
@@ -1371,7 +1406,7 @@ fn main() {
 
     //--- (2) round trip of whole replies through the client ------------------
     let sp = ctx.space("roundtrip.client",
-        "reset, serial, serial-then-reset and version-downgrade replies (versions 0-2, every payload type the version carries, both actions) written by the library and read by the real Client::step under every fragmentation into <= 3 chunks (quick: <= 2 chunks); the target must receive exactly the items, actions, timing and state written; for <= 2 chunks also Client::new and Client::run against Client::step, and the Error PDUs of Client::send_error (direct and through a failing PayloadTarget::apply) for the four PayloadError values: identical octets, one well-formed Error PDU of the session's version; non-trivial = executions with at least one cut");
+        "reset, serial, serial-then-reset and version-downgrade replies (versions 0-2, every payload type the version carries, both actions; plus reset replies with n payload PDUs for every n in 0..=40 and around 64, 128, 256, these into <= 2 chunks) written by the library and read by the real Client::step under every fragmentation into <= 3 chunks (quick: <= 2 chunks); the target must receive exactly the items, actions, timing and state written; for <= 2 chunks also Client::new and Client::run against Client::step, and the Error PDUs of Client::send_error (direct and through a failing PayloadTarget::apply) for the four PayloadError values: identical octets, one well-formed Error PDU of the session's version; non-trivial = executions with at least one cut");
     let mut cjobs: Vec<(usize, Vec<Ev>)> = Vec::new();
     for (i, st) in cstreams.iter().enumerate() {
         // every cut position here, the replies are short
@@ -1379,7 +1414,7 @@ fn main() {
         cjobs.push((i, vec![Ev::Deliver(n), Ev::Settle]));
         for a in 1..n {
             cjobs.push((i, vec![Ev::Deliver(a), Ev::Settle, Ev::Deliver(n - a), Ev::Settle]));
-            if thorough { for b in a + 1..n { cjobs.push((i, vec![Ev::Deliver(a), Ev::Settle, Ev::Deliver(b - a), Ev::Settle, Ev::Deliver(n - b), Ev::Settle])) } }
+            if thorough && !cseeds[i].sweep { for b in a + 1..n { cjobs.push((i, vec![Ev::Deliver(a), Ev::Settle, Ev::Deliver(b - a), Ev::Settle, Ev::Deliver(n - b), Ev::Settle])) } }
         }
     }
     let accs: Vec<Acc> = cjobs.par_chunks(256).map(|chunk| {
@@ -1387,7 +1422,7 @@ fn main() {
         for (i, script) in chunk {
             if script.len() > 2 { acc.nontrivial += 1 }
             judge_client(&mut acc, &cseeds[*i], &cstreams[*i], script, true, false, "");
-            if script.len() <= 4 {
+            if script.len() <= if cseeds[*i].sweep { 2 } else { 4 } {
                 // the other entry points, on the same schedule followed by the server closing
                 let mut closing = script.clone(); closing.extend([Ev::Close, Ev::Settle]);
                 judge_client_variants(&mut acc, &cseeds[*i], &cstreams[*i], &closing, "");
@@ -1397,7 +1432,7 @@ fn main() {
     }).collect();
     report(&ctx, &sp, accs);
     sp.sample_str(|| format!("{}: {}", cseeds[2].name, show(&cstreams[2])));
-    sp.set("replies", serde_json::json!(cseeds.iter().map(|s| s.name).collect::<Vec<_>>()));
+    sp.set("replies", serde_json::json!(cseeds.iter().map(|s| s.name.clone()).collect::<Vec<_>>()));
     sp.done(true, &format!("{} replies x every fragmentation into <= {} chunks", cseeds.len(), ctx.tier.pick(2, 3)));
 
     //--- (2b) prefix and max length through to_payload -------------------------
@@ -1450,8 +1485,8 @@ fn main() {
 
     //--- (2c) provider counts beyond what the library writes --------------------
     let sp = ctx.space("aspa.provider_count",
-        "ASPA PDUs built octet by octet with n providers for n in 0,1,2,255,256,16379,16380,16381,32767,32768,65534,65535,65536,65537 x versions 0-2 x both actions, read through Aspa::read, Header::read+Aspa::read_payload and Payload::read: whatever a reader accepts must answer every accessor (asn_count against iter().count(), into_providers against providers(), to_payload) without panicking; non-trivial = counts above ProviderAsns::MAX_COUNT, which the library itself never writes");
-    let counts = [0usize, 1, 2, 255, 256, 16379, 16380, 16381, 32767, 32768, 65534, 65535, 65536, 65537];
+        "ASPA PDUs built octet by octet with n providers for n in 0,1,2,255,256, 16379..16381 (MAX_COUNT), k-1,k,k+1 for k = 2^15, 2^16, 2^17, 2^18, and 2^18+3, 2^18+16380, 2^18+16381 x versions 0-2 x both actions, read through Aspa::read, Header::read+Aspa::read_payload and Payload::read: whatever a reader accepts must answer every accessor (asn_count against iter().count(), into_providers against providers(), to_payload) without panicking; non-trivial = counts above ProviderAsns::MAX_COUNT, which the library itself never writes");
+    let counts = [0usize, 1, 2, 255, 256, 16379, 16380, 16381, 32767, 32768, 32769, 65534, 65535, 65536, 65537, 131071, 131072, 131073, 262143, 262144, 262145, 262147, 262144 + 16380, 262144 + 16381];
     let pjobs: Vec<(usize, u8, u8)> = counts.iter().flat_map(|n| [0u8, 1, 2].into_iter().flat_map(move |v| [0u8, 1].into_iter().map(move |f| (*n, v, f)))).collect();
     let accs: Vec<Acc> = pjobs.par_iter().map(|(n, v, flags)| {
         let mut acc = Acc::default();
@@ -1483,7 +1518,7 @@ fn main() {
     }).collect();
     report(&ctx, &sp, accs);
     sp.sample_str(|| "aspa providers=65536: length field 262156".to_string());
-    sp.done(true, "14 provider counts x 3 versions x 2 actions x 3 readers");
+    sp.done(true, &format!("{} provider counts x 3 versions x 2 actions x 3 readers", counts.len()));
 
     //--- (3) truncation -------------------------------------------------------
     let sp = ctx.space("fault.truncation",
@@ -1580,6 +1615,7 @@ fn main() {
     #[derive(Clone)] enum CJob { Cut(usize, usize), Corrupt(usize, usize) }
     let mut fjobs: Vec<CJob> = Vec::new();
     for (i, st) in cstreams.iter().enumerate() {
+        if cseeds[i].sweep { continue }
         for k in 0..st.len() { fjobs.push(CJob::Cut(i, k)) }
         for pi in 0..cseeds[i].reply.len() { fjobs.push(CJob::Corrupt(i, pi)) }
     }
